@@ -3106,7 +3106,7 @@ func (m *Msg) signMessage() error {
 	// We render an unsigned version of the mail into a buffer so we can use it for
 	// the S/MIME signature
 	buf := bytes.NewBuffer(nil)
-	mw := &msgWriter{writer: buf, charset: m.charset, encoder: m.encoder}
+	mw := &msgWriter{writer: buf, charset: m.charset, encoder: m.encoder, rawPartHeaders: true}
 	mw.writeMsg(m)
 
 	// Since we only want to sign the message body, we need to find the position within
